@@ -567,7 +567,10 @@ class Network:
     ``wire_log`` lists every datagram ever handed to the network
     (:class:`WireRecord`); ``taps`` are called with each record at send time
     (the wire observer registers itself there); ``delivered`` /
-    ``blackholed`` record arrival.
+    ``blackholed`` record arrival.  ``muted`` (names of endpoints whose output
+    is discarded before it reaches the wire), ``isolated`` (names of endpoints
+    that receive nothing) and ``interceptors`` (``{name: f(data) -> data |
+    None}``, rewriting an endpoint's output) support the peer puppet.
     """
 
     def __init__(
@@ -588,7 +591,8 @@ class Network:
         self.endpoints: dict[Address, Endpoint] = {}
         self.delivered: list[tuple[float, int, Address, Address]] = []
         self.blackholed: list[tuple[float, int, Address, Address]] = []
-        self.muted: set[str] = set()
+        self.muted: set[str] = set()  # endpoint names whose output is discarded
+        self.isolated: set[str] = set()  # endpoint names that receive nothing
         self._seq = 0
         bind = getattr(self.fate, "bind_clock", None)
         if bind:
@@ -1074,7 +1078,7 @@ class Pair:
     def _deliver_next(self) -> StepRecord:
         when, _seq, data, src, dst, index = self.network.pop()
         ep = self.network.endpoints.get(dst)
-        if ep is None:
+        if ep is None or ep.name in self.network.isolated:
             self.network.blackholed.append((self.clock.now, index, src, dst))
             return StepRecord(self.clock.now, "blackhole", None, index)
         if ep.conn is None:
